@@ -236,7 +236,7 @@ class _STIXBase(collections.abc.Mapping):
 
         setting_kwargs = {}
 
-        has_custom = bool(all_custom_prop_names)
+        has_custom = False
         for prop_name in property_order:
 
             prop_val = assigned_properties.get(prop_name)
@@ -250,6 +250,12 @@ class _STIXBase(collections.abc.Mapping):
                 )
 
                 has_custom = has_custom or temp_custom
+
+        # A custom property given as None or [] is not set at all: only those
+        # which made it into the object count as customization.
+        has_custom = has_custom or any(
+            prop_name in setting_kwargs for prop_name in all_custom_prop_names
+        )
 
         # Detect any missing required properties
         required_properties = set(
